@@ -175,7 +175,7 @@ def design_legs(ctx, configs, invariants, liveness, neg_invariants, h, rnd, n_si
     for (calls, nw, wq, rq) in configs:
         consts = {"Calls": "<-" + calls, "NW": nw, "WorkCap": wq, "ResCap": rq, "Design": '"fixed"'}
         name = "FunctorPool_%s_w%d_q%d_r%d" % (calls, nw, wq, rq)
-        model.mc(MC, consts, ctx, name, invariants=invariants, view=None, workers=16, timeout=1500)
+        model.mc(MC, consts, ctx, name, invariants=invariants, view=None, workers=16, timeout=1500, coverage=True)
         if liveness:
             model.mc(MC, consts, ctx, name + "_live", properties=["AllCallsEnd"], view=None, workers=16, timeout=1500, spec="FairSpec",
                      count=False)
@@ -204,6 +204,7 @@ def design_legs(ctx, configs, invariants, liveness, neg_invariants, h, rnd, n_si
     a, b = conf["spec_to_code"], conf["code_to_spec"]
     conf["status"] = "not-run" if h is None else ("bound" if a["followed"] == a["behaviours"] and b["accepted"] == b["executions"] else "diverged")
     ctx.extra["conformance_with_FunctorPool_tla"] = conf
+    model.coverage_summary(ctx)
     if conf["status"] == "diverged":
         ctx.note("conformance with the implementation-level model is lost (not a violation by itself): %s" % json.dumps(conf)[:600])
     # negative control: the design of the pinned commit must violate
@@ -237,8 +238,9 @@ def factory_conformance(ctx, h, rnd, quick, judge):
     """FactoryFunctorPool.tla (one label per visible operation, with quota / retirement / replace thread): exhaustive TLC runs and
     step-level conformance of the real FactoryFunctorPool in both directions."""
     import random as _r
-    configs = [("C2", 1, 4, 1, 0, 1), ("C2", 1, 3, 1, 0, 2)] if quick else \
-              [("C2", 1, 4, 1, 0, 1), ("C2", 1, 3, 1, 0, 2), ("C21", 2, 6, 2, 0, 1), ("C222", 1, 5, 1, 0, 2), ("C3", 2, 6, 2, 1, 1)]
+    # (the configuration with a bounded result queue is the one that takes the flow-control and blocking-put actions)
+    configs = [("C2", 1, 4, 1, 0, 1), ("C2", 1, 3, 1, 0, 2), ("C2", 2, 5, 2, 1, 1)] if quick else \
+              [("C2", 1, 4, 1, 0, 1), ("C2", 1, 3, 1, 0, 2), ("C2", 2, 5, 2, 1, 1), ("C21", 2, 6, 2, 0, 1), ("C222", 1, 5, 1, 0, 2), ("C3", 2, 6, 2, 1, 1)]
     n = 25 if quick else 200
     conf = {"spec_to_code": {"behaviours": 0, "followed": 0, "steps": 0, "first_divergence": None},
             "code_to_spec": {"executions": 0, "accepted": 0, "steps": 0, "first_rejection": None}}
@@ -246,7 +248,7 @@ def factory_conformance(ctx, h, rnd, quick, judge):
         consts = {"Calls": "<-" + calls, "Quota": quota, "MaxWid": maxwid, "NW": nw, "WorkCap": wq, "ResCap": rq, "Design": '"fixed"'}
         name = "FactoryFunctorPool_%s_w%d_q%d_r%d_k%d" % (calls, nw, wq, rq, quota)
         model.mc(FMC1, consts, ctx, name, invariants=["CallOK", "NoBad", "NoDeadlock", "NoLeftovers", "QuotaKept", "NoneLeftRunning", "WidBound"],
-                 view=None, workers=16, timeout=2400)
+                 view=None, workers=16, timeout=2400, coverage=True)
         # liveness: under weak fairness of every thread and process every call ends and the context is left
         model.mc(FMC1, consts, ctx, name + "_live", properties=["AllCallsEnd"], view=None, workers=16, timeout=2400, spec="FairSpec", count=False)
         if h is None:
@@ -274,6 +276,7 @@ def factory_conformance(ctx, h, rnd, quick, judge):
                 conf["code_to_spec"]["first_rejection"] = {"config": name, "matched": m, "of": t, "step": tr[m], "schedule": w.schedule[:m + 2]}
     a, b = conf["spec_to_code"], conf["code_to_spec"]
     conf["status"] = "not-run" if h is None else ("bound" if a["followed"] == a["behaviours"] and b["accepted"] == b["executions"] else "diverged")
+    model.coverage_summary(ctx)
     ctx.extra["conformance_with_FactoryFunctorPool_tla"] = conf
     if conf["status"] == "diverged":
         ctx.note("conformance with FactoryFunctorPool.tla is lost (not a violation by itself): %s" % json.dumps(conf)[:600])
